@@ -71,7 +71,8 @@ def codec_agreement(m: Model, r: Report, rid: str, cls: ClassInfo) -> None:
             rest = [n for n in ast.walk(up.node) if isinstance(n, ast.Subscript) and isinstance(n.slice, ast.Slice)
                     and n.slice.lower is not None and n.slice.upper is None]
             lows = [m.try_fold(up.module, x.slice.lower) for x in rest]
-            r.check(lows == [struct.calcsize(ufmt)], rid, f"{up.qualname}#rest-offset",
+            # (no rest slice at all: the decoder ignores an optional trailing field)
+            r.check(lows in ([struct.calcsize(ufmt)], []), rid, f"{up.qualname}#rest-offset",
                     f"the variable part starts at {lows}, the fixed part is {struct.calcsize(ufmt)} bytes", loc=up.loc)
         # constructor argument order
         rets = [n.value for n in ast.walk(up.node) if isinstance(n, ast.Return) and isinstance(n.value, ast.Call) and ast.unparse(n.value.func) == "cls"]
@@ -453,6 +454,42 @@ def wire_enum_coercion_total(m: Model, r: Report, rid: str, module: str, fn_name
                         r.advisory(rid, f"{f.qualname}#coerces:{c.name}", msg + " [payload decoder: only reachable with a code the specification reserves]", f"{f.module.relpath}:{call.lineno}")
                     continue
                 r.check(okc, rid, f"{f.qualname}#coerces:{c.name}", msg, loc=f"{f.module.relpath}:{call.lineno}")
+    return n
+
+
+def optional_payload_fields(m: Model, r: Report, rid: str, module: str, lengths: dict) -> int:
+    """Decoders of payload types with optional trailing fields accept every length the specification allows (finite-domain evaluation of unpack() for an
+    all-zero payload of each allowed length; struct.unpack is answered by the real struct module)."""
+    import struct as _struct
+    from sa import miniterp
+    n = 0
+    for cname, lens in lengths.items():
+        c = m.require_class(f"{module}.{cname}")
+        f = c.methods.get("unpack")
+        if f is None:
+            raise AnalysisError(f"{c.qualname}.unpack not found")
+        dpar = f.params()[1] if len(f.params()) > 1 else "data"
+
+        def orc(call, env):
+            fn = ast.unparse(call.func)
+            if fn in ("struct.unpack", "unpack") and len(call.args) == 2:
+                fmt, buf = miniterp.eval_expr(call.args[0], env, orc), miniterp.eval_expr(call.args[1], env, orc)
+                try:
+                    return _struct.unpack(fmt, buf)
+                except _struct.error:
+                    raise miniterp.Raised(ast.Raise(exc=ast.Name(id="struct.error", ctx=ast.Load()), cause=None))
+            if fn == "cls" or fn[:1].isupper():
+                return tuple(miniterp.eval_expr(a, env, orc) for a in call.args) or ("obj",)
+            return NotImplemented
+        bad = []
+        for ln in lens:
+            n += 1
+            try:
+                miniterp.run_function(f.node, {"cls": None, dpar: bytes(ln)}, orc)
+            except miniterp.Raised as e:
+                bad.append(f"{ln} bytes -> raises {ast.unparse(e.node.exc) if e.node.exc is not None else ''}")
+        r.check(not bad, rid, f"{f.qualname}#optional-fields", f"{bad}: the specification allows payload lengths {lens} for this type (optional trailing field); the exception ends the "
+                "reader task and closes the connection although the frame is valid", loc=f.loc)
     return n
 
 
